@@ -201,7 +201,7 @@ for gname, g in GS.items():
             row = []
             for p in (model, ns['MParser']()):
                 try:
-                    p.parse(first, start='start', asmodel=True)
+                    p.parse(first, asmodel=True)          # no other argument: nothing but the model building is asked for
                 except Exception:
                     pass
                 try:
